@@ -98,6 +98,18 @@ type Case struct {
 	// only): valid signatures of the same signer that lack part of the required metadata or are
 	// for another artifact. Whatever verifies first is judged.
 	Decoys [][]byte `json:"decoys,omitempty"`
+	// Earlier: genuine signatures (the ones the case's envelope was derived from), each verified
+	// for its OWN artifact on the same verifier before the judged call. What the process has
+	// accepted before must not make a derived envelope acceptable
+	Earlier []Earlier `json:"earlier,omitempty"`
+}
+
+// Earlier is one genuine (envelope, artifact) pair verified before the judged call.
+type Earlier struct {
+	Envelope  []byte `json:"envelope"`
+	MediaType string `json:"mediaType"`
+	Digest    string `json:"digest"`
+	Size      int64  `json:"size"`
 }
 
 // oddPlugin is a verification plugin that misbehaves when asked to verify.
@@ -416,6 +428,14 @@ func execute(c *Case, s *signer) (resOut *result, errOut error) {
 		}
 		return m
 	}
+	for _, e := range c.Earlier { // not judged
+		d := ocispec.Descriptor{MediaType: e.MediaType, Digest: digest.Digest(e.Digest), Size: e.Size}
+		if c.Presented.Kind == "oci" {
+			v.Verify(ctx, d, e.Envelope, notation.VerifierVerifyOptions{ArtifactReference: "registry.example/c01/repo@" + e.Digest, SignatureMediaType: c.Format})
+		} else {
+			v.VerifyBlob(ctx, func(digest.Algorithm) (ocispec.Descriptor, error) { return d, nil }, e.Envelope, notation.BlobVerifierVerifyOptions{SignatureMediaType: c.Format})
+		}
+	}
 	switch c.Entry {
 	case "verifier.Verify":
 		desc := ocispec.Descriptor{MediaType: p.MediaType, Digest: digest.Digest(p.Digest), Size: p.Size}
@@ -668,6 +688,9 @@ func TestC01_Bound(t *testing.T) {
 			e2 := buildEnv(c.Format, sB, art.payload(), envb.PayloadType, c.Plugin)
 			e3 := buildEnv(c.Format, sA, art.payload(), envb.PayloadType, c.Plugin) // same content, different signature value
 			c.Envelope, c.Detail = reassemble(rt, c.Format, [][]byte{e0, e1, e2, e3}, sA.twinLeaf.Cert)
+			if rapid.Bool().Draw(rt, "donorsVerifiedEarlier") {
+				c.Earlier = []Earlier{{e0, art.mediaType, art.digest, art.size}, {e1, other.mediaType, other.digest, other.size}, {e3, art.mediaType, art.digest, art.size}}
+			}
 		case "payload-size-lies":
 			// a validly signed payload that names the presented artifact's digest and media type but
 			// another size - off by a few, a fraction, a value that only differs beyond 2^53 - and, for
@@ -719,6 +742,12 @@ func TestC01_Bound(t *testing.T) {
 			}
 		case "bytemutated":
 			c.Envelope, c.Detail = byteMutate(rt, c.Format, e0)
+			if rapid.Bool().Draw(rt, "originalVerifiedEarlier") {
+				c.Earlier = []Earlier{{e0, art.mediaType, art.digest, art.size}}
+			}
+		}
+		if (c.Source == "descriptor-nearmiss" || c.Source == "metadata-nearmiss") && rapid.IntRange(0, 2).Draw(rt, "genuineVerifiedEarlier") == 0 {
+			c.Earlier = []Earlier{{e0, art.mediaType, art.digest, art.size}}
 		}
 		if kind == "blob" {
 			c.Presented.Reader = rp.Pick(rt, "reader", "bytes", "bytes", "multi-split", "multi-split", "one-byte", "data-with-eof", "half", "error-at-end", "error-in-the-middle")
@@ -783,6 +812,12 @@ func TestC01_Bound(t *testing.T) {
 		}
 		if len(c.Decoys) > 0 {
 			cl = append(cl, "listed-with-decoys")
+		}
+		if len(c.Earlier) > 0 {
+			cl = append(cl, "genuine-signature-verified-earlier-on-the-same-verifier")
+			if c.Source == "reassembled" {
+				cl = append(cl, "reassembled-from-signatures-verified-earlier")
+			}
 		}
 		for _, d := range strings.Split(c.Detail, ";") {
 			if d != "" && c.Source != "reassembled" {
